@@ -8,9 +8,9 @@ package harness
 
 import (
 	"context"
+	"database/sql/driver"
 	"fmt"
 	"os"
-	"database/sql/driver"
 	"sync"
 	"sync/atomic"
 
@@ -27,7 +27,8 @@ type SQLEvent struct {
 	InTx  bool // issued on a connection that has an open transaction
 	After bool // false: about to run; true: has run
 	GID   int64
-	Err   error // result (After only)
+	Err   error               // result (After only)
+	Args  []driver.NamedValue // bound values (exec / query calls)
 }
 
 // SQLHook is called before (After=false) and after (After=true) each call. A
@@ -174,7 +175,7 @@ func (hc *hookConn) Begin() (driver.Tx, error) {
 }
 
 func (hc *hookConn) ExecContext(ctx context.Context, q string, args []driver.NamedValue) (driver.Result, error) {
-	ev := &SQLEvent{Op: "exec", SQL: q, InTx: hc.tx()}
+	ev := &SQLEvent{Op: "exec", SQL: q, InTx: hc.tx(), Args: args}
 	if err := hc.c.fire(ev); err != nil {
 		return nil, err
 	}
@@ -189,7 +190,7 @@ func (hc *hookConn) ExecContext(ctx context.Context, q string, args []driver.Nam
 }
 
 func (hc *hookConn) QueryContext(ctx context.Context, q string, args []driver.NamedValue) (driver.Rows, error) {
-	ev := &SQLEvent{Op: "query", SQL: q, InTx: hc.tx()}
+	ev := &SQLEvent{Op: "query", SQL: q, InTx: hc.tx(), Args: args}
 	if err := hc.c.fire(ev); err != nil {
 		return nil, err
 	}
@@ -251,7 +252,7 @@ func (s *hookStmt) Close() error {
 }
 
 func (s *hookStmt) ExecContext(ctx context.Context, args []driver.NamedValue) (driver.Result, error) {
-	ev := &SQLEvent{Op: "stmt-exec", SQL: s.q, InTx: s.hc.tx()}
+	ev := &SQLEvent{Op: "stmt-exec", SQL: s.q, InTx: s.hc.tx(), Args: args}
 	if err := s.hc.c.fire(ev); err != nil {
 		return nil, err
 	}
@@ -266,7 +267,7 @@ func (s *hookStmt) ExecContext(ctx context.Context, args []driver.NamedValue) (d
 }
 
 func (s *hookStmt) QueryContext(ctx context.Context, args []driver.NamedValue) (driver.Rows, error) {
-	ev := &SQLEvent{Op: "stmt-query", SQL: s.q, InTx: s.hc.tx()}
+	ev := &SQLEvent{Op: "stmt-query", SQL: s.q, InTx: s.hc.tx(), Args: args}
 	if err := s.hc.c.fire(ev); err != nil {
 		return nil, err
 	}
